@@ -436,6 +436,12 @@ def main():
             for m in re.finditer(r'#\[derive\(([^)]*)\)\]\s*(?:#\[[^\]]*\]\s*)*(?:pub(?:\([^)]*\))?\s+)?(?:struct|enum)\s+(\$?\w+)', text):
                 ds = [d.strip().split("::")[-1] for d in m.group(1).split(",") if d.strip()]
                 derives.append("%s @%s: %s" % (m.group(2), rel, " ".join(d for d in ds if d in STRUCT_TRAITS)))
+            # code that exists only when a feature is OFF is never compiled into the harness (which turns every feature on and builds the two
+            # math back ends): the model has one behaviour per back end, so every `cfg(.. not(..) ..)` fork is listed
+            for m in re.finditer(r'#\[cfg\(((?:[^()]|\([^()]*\)|\((?:[^()]|\([^()]*\))*\))*)\)\]', text):
+                a = re.sub(r"\s+", "", m.group(1))
+                if "not(" in a and "test" not in a:
+                    manual.append("cfg %s @%s" % (a, rel))
             # a struct / enum with no derive attribute at all still matters (it then has none of the traits)
             for m in re.finditer(r'(?<!\]\n)(?<!\] )\b(?:pub(?:\([^)]*\))?\s+)?(?:struct|enum)\s+(\$?\w+)', text):
                 if not any(d.startswith(m.group(1) + " @" + rel + ":") for d in derives):
